@@ -3,10 +3,12 @@ package main
 // C20: read-only use of tokens does not change them and is race-free.
 
 import (
+	"bytes"
 	"encoding/json"
 	"fmt"
 	"math/rand"
 	"sync"
+	"time"
 
 	"github.com/ipfs/go-cid"
 	"github.com/ipld/go-ipld-prime"
@@ -43,7 +45,9 @@ func newImmWorld(w *world, order []int, decoded bool) (*immWorld, error) {
 		return nil, err
 	}
 	pol, _ := policy.FromDagJson(`[[">=", ".alpha", 0], ["like", ".zeta", "*"]]`)
-	dopts := []delegation.Option{delegation.WithSubject(iw.iss.id)}
+	// bounds with a sub-second part: a read-only operation that normalises them in place is visible
+	dopts := []delegation.Option{delegation.WithSubject(iw.iss.id), delegation.WithExpirationIn(time.Hour + 300*time.Millisecond),
+		delegation.WithNotBeforeIn(-time.Hour - 700*time.Millisecond)}
 	iopts := []invocation.Option{}
 	for _, k := range order {
 		name := immKeyNames[k]
@@ -109,6 +113,14 @@ func (iw *immWorld) snapshot() string {
 	}
 	for k, v := range iw.dlg.Meta().Iter() {
 		s = append(s, "dmeta", k, jsonOf(v))
+	}
+	// time bounds at full resolution (fieldsOf reports whole seconds)
+	for _, t := range []*time.Time{iw.inv.Expiration(), iw.inv.InvokedAt(), iw.dlg.Expiration(), iw.dlg.NotBefore()} {
+		if t == nil {
+			s = append(s, "t", nil)
+		} else {
+			s = append(s, "t", t.UnixNano())
+		}
 	}
 	_, f1, _ := fieldsOf(iw.inv)
 	_, f2, _ := fieldsOf(iw.dlg)
@@ -204,7 +216,9 @@ var immOps = []immOp{
 			return "err:" + err.Error()
 		}
 		_, f, _ := fieldsOf(t)
-		delete(f, "nonce")
+		for _, k := range []string{"nonce", "nbf", "exp"} { // differ between token instances
+			delete(f, k)
+		}
 		x, _ := json.Marshal(jsonFields(f))
 		return string(x)
 	}},
@@ -260,6 +274,110 @@ var immOps = []immOp{
 			return c, nil
 		})
 		return fmt.Sprint(err, seen)
+	}},
+	{"inv.Meta.getters", func(iw *immWorld) string {
+		m := iw.inv.Meta()
+		var out []any
+		for _, k := range append(append([]string{}, iw.keys...), "missing") {
+			sv, e1 := m.GetString(k)
+			iv, e2 := m.GetInt64(k)
+			_, e3 := m.GetBool(k)
+			_, e4 := m.GetFloat64(k)
+			_, e5 := m.GetBytes(k)
+			n, e6 := m.GetNode(k)
+			var nj any
+			if e6 == nil {
+				nj = jsonOf(n)
+			}
+			out = append(out, k, sv, e1 != nil, iv, e2 != nil, e3 != nil, e4 != nil, e5 != nil, nj)
+		}
+		b, _ := json.Marshal(out)
+		return string(b)
+	}},
+	{"dlg.Meta.clone+equals", func(iw *immWorld) string {
+		m := iw.dlg.Meta()
+		c := m.WriteableClone()
+		same := m.Equals(c.ReadOnly())
+		err := c.Add("extra-meta", 1)
+		differs := !m.Equals(c.ReadOnly())
+		var ks, ks2 []string
+		for k := range c.Iter() {
+			ks = append(ks, k)
+		}
+		c2 := m.WriteableClone()
+		_ = c2.Add("another", "x")
+		for k := range c2.Iter() {
+			ks2 = append(ks2, k)
+		}
+		return fmt.Sprint(same, err, differs, ks, ks2, len(c.String()))
+	}},
+	{"inv.Arguments.GetNode", func(iw *immWorld) string {
+		var out []any
+		for _, k := range append(append([]string{}, iw.keys...), "missing") {
+			n, err := iw.inv.Arguments().GetNode(k)
+			if err != nil {
+				out = append(out, k, "err")
+			} else {
+				out = append(out, k, jsonOf(n))
+			}
+		}
+		b, _ := json.Marshal(out)
+		return string(b)
+	}},
+	{"inv.ToDagCbor+Writer", func(iw *immWorld) string {
+		b, err := iw.inv.ToDagCbor(iw.aud.priv)
+		var buf bytes.Buffer
+		err2 := iw.inv.ToDagJsonWriter(&buf, iw.aud.priv)
+		_, err3 := invocation.FromDagCbor(b)
+		return fmt.Sprint(err, err2, err3, len(b) > 0, buf.Len() > 0)
+	}},
+	{"dlg.ToDagJson+Writer", func(iw *immWorld) string {
+		b, err := iw.dlg.ToDagJson(iw.iss.priv)
+		var buf bytes.Buffer
+		_, err2 := iw.dlg.ToSealedWriter(&buf, iw.iss.priv)
+		t, err3 := delegation.FromDagJson(b)
+		d := ""
+		if err3 == nil {
+			_, f, _ := fieldsOf(t)
+			for _, k := range []string{"nonce", "nbf", "exp"} {
+				delete(f, k)
+			}
+			x, _ := json.Marshal(jsonFields(f))
+			d = string(x)
+		}
+		return fmt.Sprint(err, err2, err3, d)
+	}},
+	{"IsValidAt around the bounds", func(iw *immWorld) string {
+		var out []bool
+		for _, b := range []*time.Time{iw.dlg.Expiration(), iw.dlg.NotBefore()} {
+			if b != nil {
+				out = append(out, iw.dlg.IsValidAt(b.Add(-time.Nanosecond)), iw.dlg.IsValidAt(b.Add(time.Nanosecond)), iw.dlg.IsValidAt(b.Add(400*time.Millisecond)))
+			}
+		}
+		if iat := iw.inv.InvokedAt(); iat != nil {
+			out = append(out, iw.inv.IsValidAt(iat.Add(time.Nanosecond)))
+		}
+		return fmt.Sprint(out)
+	}},
+	{"dlg.Policy.String+ToIPLD+PartialMatch", func(iw *immWorld) string {
+		p := iw.dlg.Policy()
+		n, err := p.ToIPLD()
+		var j []byte
+		if err == nil {
+			j, _ = json.Marshal(jsonOf(n))
+		}
+		an, _ := iw.inv.Arguments().ToIPLD()
+		ok, _ := p.PartialMatch(an)
+		return fmt.Sprint(p.String(), string(j), ok)
+	}},
+	{"did+command", func(iw *immWorld) string {
+		k, err := iw.inv.Issuer().PubKey()
+		var kb []byte
+		if err == nil {
+			kb, _ = k.Raw()
+		}
+		c := iw.dlg.Command()
+		return fmt.Sprint(iw.inv.Issuer().String(), err, len(kb), c.Covers(iw.inv.Command()), iw.inv.Command().Covers(c), c.Segments(), c.Join("z").String(), iw.inv.Command().Segments())
 	}},
 	{"accessors", func(iw *immWorld) string {
 		return fmt.Sprint(iw.inv.Issuer(), iw.inv.Subject(), iw.inv.Command(), len(iw.inv.Proof()), len(iw.inv.Nonce()), iw.dlg.Audience(), iw.dlg.IsValidNow(), iw.inv.IsValidNow())
